@@ -797,6 +797,16 @@ func (g *Gen) Device(t *GConf, nedits int, unmanaged bool) (*GConf, []string) {
 	for _, a := range d.ACLs {
 		a.Lines = dedupLines(a.Lines, g.Kind == "ios")
 	}
+	// A device never holds the same route line twice.
+	seenRoute := map[string]bool{}
+	var routes []string
+	for _, r := range d.Routes {
+		if !seenRoute[r] {
+			seenRoute[r] = true
+			routes = append(routes, r)
+		}
+	}
+	d.Routes = routes
 	if unmanaged {
 		g.addUnmanaged(d)
 	}
